@@ -250,6 +250,29 @@ func buildIntercepts() map[string]interceptFn {
 		abortf("reflect.Value.Len on %T", rv.v)
 		return nil, true
 	}
+	ic["(reflect.Value).IsValid"] = func(m *Machine, f *Frame, a []value) (value, bool) {
+		rv, _ := a[0].(reflVal)
+		return m.tb.Bool(rv.t != nil), true
+	}
+	ic["(reflect.Value).Elem"] = func(m *Machine, f *Frame, a []value) (value, bool) {
+		rv := a[0].(reflVal)
+		switch u := rv.t.Underlying().(type) {
+		case *types.Pointer:
+			p := rv.v.(Ptr)
+			if p.obj == nil {
+				return reflVal{}, true
+			}
+			return reflVal{v: m.loadT(p.obj, p.idx, u.Elem()), t: u.Elem()}, true
+		case *types.Interface:
+			i := rv.v.(Iface)
+			if i.t == nil {
+				return reflVal{}, true
+			}
+			return reflVal{v: i.v, t: i.t}, true
+		}
+		m.goPanicf("reflect: call of reflect.Value.Elem on %s Value", rv.t)
+		return nil, true
+	}
 	ic["(reflect.Value).IsNil"] = func(m *Machine, f *Frame, a []value) (value, bool) {
 		rv := a[0].(reflVal)
 		return m.tb.Bool(isNilValue(rv.v)), true
